@@ -57,6 +57,9 @@ Proof. intros H. apply nth_error_None in H. apply skipn_all2. exact H. Qed.
 Lemma skipn_skipn' {A} (l : list A) a b : skipn a (skipn b l) = skipn (b + a) l.
 Proof. revert l; induction b as [|b IH]; intros l; [reflexivity|]. destruct l; [rewrite !skipn_nil; reflexivity|]. cbn [plus skipn]. apply IH. Qed.
 
+Lemma dpath_e_gt R m cur seg nl n e : dpath R m cur seg nl n e -> cur < e.
+Proof. induction 1; lia. Qed.
+
 Section NEW.
 Variables (h c : bytes).
 Hypothesis Hh : length h = 12%nat.
@@ -241,8 +244,9 @@ Proof.
   rewrite (skipn_nth_cons _ _ _ G) in H. rewrite nb_segment_cons in H.
   destruct (N.eqb_spec b 0) as [Hb0|Hb0].
   - rewrite Hb0 in G. clear Hb0. unfold nb_append in H. change (len [0]) with 1 in H.
+    remember (skipn (S (N.to_nat i)) c) as tl eqn:Etl in H.
     destruct (N.ltb_spec 255 (len buf + 1)); [discriminate|]. cbn [bind] in H.
-    injection H as Ep Er Eb'; subst ptr rest buf'. exists [], i.
+    injection H as Ep Er Eb'; subst ptr rest buf' tl. exists [], i.
     split; [lia|]. split; [reflexivity|]. split.
     { cbn [term_len]. rewrite len_skipn by (unfold len in *; lia). lia. }
     split; [cbn; lia|]. split; [auto|]. split.
@@ -279,8 +283,9 @@ Proof.
     + destruct (nth_error c (S (N.to_nat i))) as [lo|] eqn:G1.
       2:{ rewrite (skipn_nth_nil _ _ G1) in H. discriminate. }
       rewrite (skipn_nth_cons _ _ _ G1) in H.
+      remember (skipn (S (S (N.to_nat i))) c) as tl eqn:Etl in H.
       destruct (N.leb_spec 192 b) as [Hb2|Hb2]; [|discriminate].
-      injection H as Ep Er Eb'; subst ptr rest buf'. exists [], i.
+      injection H as Ep Er Eb'; subst ptr rest buf' tl. exists [], i.
       assert (Hlt1 : i + 1 < len c).
       { assert (S (N.to_nat i) < length c)%nat by (apply nth_error_Some; congruence). unfold len. lia. }
       split; [lia|]. split; [cbn; rewrite app_nil_r; reflexivity|]. split.
@@ -318,7 +323,7 @@ Proof.
   rewrite get_from_some in H by lia.
   destruct (nb_segment (S (length (skipn (N.to_nat (pv - 12)) c))) (skipn (N.to_nat (pv - 12)) c) buf)
     as [[[ptr' rest'] buf']| | |] eqn:ES; cbn [bind] in H; try discriminate.
-  destruct (seg_sound _ _ _ _ _ _ nl ltac:(lia) Hbuf Hnl ES) as (ls & j' & Hij & Eb & El & Hw & Hj & Hfb & P & T).
+  destruct (seg_sound _ (pv - 12) buf ptr' rest' buf' nl ltac:(lia) Hbuf Hnl ES) as (ls & j' & Hij & Eb & El & Hw & Hj & Hfb & P & T).
   replace (12 + (pv - 12)) with pv in * by lia.
   assert (HR : R_new (12 + old_start) (12 + j) pv) by (unfold R_new; lia).
   destruct ptr' as [pv2|].
@@ -329,15 +334,17 @@ Proof.
     exists (ls ++ tail2). split.
     { rewrite Ew, Eb. cbn [term_bytes]. rewrite app_nil_r, wire_abs_app, app_assoc. reflexivity. }
     pose proof (P _ _ _ _ D2) as D.
+    replace (12 + (pv - 12)) with pv in D by lia.
     destruct ls as [|l0 ls].
     + (* the target is itself a pointer *)
       rewrite (Hj eq_refl) in *. replace (12 + (pv - 12)) with pv in * by lia.
+      cbn [app] in D.
       destruct (dpath_at_ptr _ _ _ _ _ _ _ D G2 Hb2) as (t & e' & PC & Dt & _).
       eapply dp_ptr; [|exact Dt]. subst pv. eapply pc_more; eauto.
     + destruct (Hfb ltac:(right; discriminate)) as (fb & Gf & Hf).
       eapply dp_ptr; [|exact D]. subst pv. eapply pc_last; eauto.
-  - inversion H; subst w. exists ls. split.
-    { rewrite Eb. cbn [term_bytes]. unfold wire_abs. rewrite app_assoc. reflexivity. }
+  - assert (Ew : w = buf') by (destruct ffuel; cbn [nb_follow] in H; congruence). subst w. exists ls. split.
+    { rewrite Eb. cbn [term_bytes]. unfold wire_abs. reflexivity. }
     destruct (Hfb ltac:(left; reflexivity)) as (fb & Gf & Hf).
     assert (D : dpath R_new m pv pv nl (ls ++ []) (12 + j' + 1)).
     { apply P. constructor. exact T. }
@@ -353,7 +360,7 @@ Proof.
   destruct (nb_segment (S (length (skipn (N.to_nat start) c))) (skipn (N.to_nat start) c) [])
     as [[[ptr rest] buf]| | |] eqn:ES; cbn [bind] in H; try discriminate.
   destruct (N.ltb_spec (len c) (len rest)); [discriminate|].
-  destruct (seg_sound _ _ _ _ _ _ 0 Hs eq_refl ltac:(lia) ES) as (ls & j & Hij & Eb & El & Hw & Hj & Hfb & P & T).
+  destruct (seg_sound _ start [] ptr rest buf 0 Hs eq_refl ltac:(lia) ES) as (ls & j & Hij & Eb & El & Hw & Hj & Hfb & P & T).
   change nb_split_hdr with 12 in H. change nb_split_rule_ge with true in H.
   destruct ptr as [pv|].
   - destruct T as (b & c0 & G & Hb & G1 & Hpv).
@@ -386,6 +393,7 @@ Proof.
   { replace (12 + start - 12) with start by lia. lia. }
   { unfold follow_fuel. lia. }
   replace (12 + start - 12) with start in * by lia.
+  pose proof (dpath_e_gt _ _ _ _ _ _ _ D) as Hegt.
   rewrite S1. cbn [bind]. destruct (N.ltb_spec (len c) (len rest)); [lia|].
   change nb_split_hdr with 12. change nb_split_rule_ge with true. rewrite S3. cbn [bind app].
   split; [|lia]. do 2 f_equal. lia.
